@@ -36,7 +36,7 @@ class C04(fw.Prop):
                "dlms_cosem/protocol/xdlms/initiate_request.py"]
     design_ref = "DESIGN.md §6 C04"
     rule = ("connections with both keys, suites 0/1/2 (AES-128/AES-256), starting counters 0, 1, 2^32-2: from every reachable protocol state every "
-            "sendable kind with payload lengths 0..300 and around 64 KiB (sends refused by the state machine must emit nothing), incoming plain APDUs of "
+            "sendable kind (AARQ both from get_aarq() and built by the caller with a plain InitiateRequest) with payload lengths 0..300 and around 64 KiB (sends refused by the state machine must emit nothing), incoming plain APDUs of "
             "every kind in every state; each step compared with the model; in addition the harness, holding the keys, parses every output, checks title, "
             "security control, counter, decrypts and compares with the plain encoding, and searches the raw output for the plain encoding; "
             "non-trivial = distinct history")
@@ -68,6 +68,8 @@ class C04(fw.Prop):
                     sends = [["send", k, 1] for k in cl.REQUESTS] + [["send", "rlrq", 0], ["send", "dataNotif", 1], ["send", "getRespNormal", 1]]
                     if not deep and (suite, cic) not in ((0, 0), (2, 2 ** 32 - 2)):
                         sends = sends[:3]
+                    # an AARQ built by the caller (application context without ciphering, plain InitiateRequest)
+                    sends.append(["send", "aarq", 2])
                     for sop in sends:
                         q = PathK(cfg, ek, ak)
                         b = q.to_state(st)
